@@ -1,5 +1,7 @@
 // ugoh: executes verification cases against the implementation in /repo.
 // Reads "(case <id> <kind> args...)" lines on stdin, prints "<id> <result>".
+//go:debug panicnil=1
+
 package main
 
 import (
@@ -22,7 +24,7 @@ func dispatch(kind string, args []*Sexp) (out *Sexp) {
 		return runC20(kind, args)
 	}
 	switch kind {
-	case "binop", "vmbinop", "equal", "nequal", "vmequal", "vmnequal", "unop", "vmunop":
+	case "binop", "vmbinop", "litbinop", "purity", "equal", "nequal", "vmequal", "vmnequal", "unop", "vmunop":
 		return runC15(kind, args)
 	}
 	switch kind {
